@@ -1,0 +1,37 @@
+//go:build verif
+
+// Contracts for the deductive verifier in /verif (govc). Comments only.
+
+package dialvia
+
+// ---- early data behind the upstream proxy's CONNECT reply (C03) ----
+// The reply is parsed by net/http through a buffered reader. Whatever that
+// reader takes from the connection beyond the reply head would be lost to the
+// tunnel, so its source must hand out at most one byte per read: then the
+// buffered reader can never hold a byte that follows the head.
+
+//@ ghost fn bufSrc(*bufio.Reader) io.Reader
+//@ func bufio.NewReaderSize
+//@ trusted
+//@ pure
+//@ ensures result != nil && fresh(result) && bufSrc(result) == rd
+
+// byteReader: at most one byte per read, taken from the wrapped reader.
+//@ func (byteReader).Read
+//@ property C03
+//@ requires r.r != nil && len(p) >= 1
+//@ modifies *
+//@ ensures result0 <= 1
+
+// The goroutine that parses the reply: its reader reads the connection byte-wise.
+//@ func (*HTTPProxyDialer).DialContextR$1
+//@ property C03
+//@ requires pbr != nil && (bufSrc(pbr) is byteReader)
+//@ modifies **
+
+// DialContextR: for every upstream scheme (http and https alike) the reply
+// reader is built over a byteReader.
+//@ func (*HTTPProxyDialer).DialContextR
+//@ property C03
+//@ requires d != nil && d.proxyURL != nil && d.dial != nil && ctx != nil
+//@ modifies **
